@@ -420,6 +420,12 @@ struct Gen {
 		#undef W
 
 		c.ops.push_back(make_op(OP_CONSTRUCT));
+		if (manual && plans && rng.chance(1, 6)) {
+			// a plan prepared before the machine is entered (and perhaps a copy of the prepared, still inactive machine)
+			const int np = rng.range(1, 3);
+			for (int i = 0; i < np; ++i) c.ops.push_back(make_op(payload && rng.chance(1, 2) ? OP_PLAN_APPEND_WITH : OP_PLAN_APPEND));
+			if (do_copy && rng.chance(1, 2)) c.ops.push_back(make_op(OP_COPY));
+		}
 		if (manual) { Op e = make_op(OP_ENTER); if (rng.chance(9, 10)) c.ops.push_back(e); }
 		for (int i = 0; i < len; ++i) {
 			int k = table[rng.below(static_cast<uint32_t>(table.size()))];
